@@ -1261,6 +1261,14 @@ def _valid_flow(case):
         return False
     if case.get("host") == "macro" and not case["sig"]:
         return False  # starting nodes without run signals: the macro refuses to be built
+    # stale memory must not complete a round at the moment it is injected
+    for dst in {d for _s0, _c0, d in case.get("pre", [])}:
+        ups = {(s0, c0) for s0, c0, d, acc, _v in case["sig"] if acc and d == dst}
+        if case.get("ui") and dst in case["starters"]:
+            ups.add(("ui", 0))
+        heard = {(s0, c0) for s0, c0, d in case["pre"] if d == dst}
+        if not (heard < ups):
+            return False
     return True
 
 
